@@ -20,7 +20,9 @@ Definition init_chain (chs : list (K2 * ChanEnd)) (cns : list (Id * ConnEnd)) (p
   mkChain AppSt (fn_k2 chs) (fn_id cns) (fn_set pts) (fn_id ns) (fn_k2 nr) (fn_k2 na)
     none_k3 (fun _ => false) none_k3 none_ks (fun _ => false) none_ks none_ks (fn_id cps) (fn_id als) 0 h t [].
 
-Definition init_wchain (c : Chain AppSt) (cls : list (Id * Client)) : WChain := mkW c cls [] [].
+(** the recorded initial state is itself a committed version ([ver] = the chain's last block height at the start of the
+    history): an honest proof may be taken from it *)
+Definition init_wchain (c : Chain AppSt) (cls : list (Id * Client)) (ver : N) : WChain := mkW c cls [(ver, c)] [].
 
 (** scripted application behaviour as association lists on interned data ids *)
 Definition script_of (writes : list (Data * N)) (recvs : list (Data * RecvBeh)) (acks : list (Data * Data)) (fails : list Data) : Script :=
